@@ -21,6 +21,7 @@ import (
 	"fmt"
 	"net"
 	"os"
+	"strings"
 	"sync/atomic"
 	"testing"
 	"time"
@@ -28,6 +29,7 @@ import (
 	"github.com/KafScale/platform/internal/verif/enum"
 	"github.com/KafScale/platform/internal/verif/fakes3"
 	"github.com/KafScale/platform/internal/verif/vh"
+	"github.com/KafScale/platform/pkg/acl"
 	"github.com/KafScale/platform/pkg/broker"
 	"github.com/KafScale/platform/pkg/metadata"
 	"github.com/KafScale/platform/pkg/protocol"
@@ -39,7 +41,35 @@ const vC11SentinelCorr = int32(0x5E171E1)
 // vC11NewBroker builds the fixture of one case: real handler over an in-memory store and a
 // fake bucket, topic "t" (2 partitions) with one flushed batch in partition 0, group "g"
 // stable with one member that committed offset 1 on t/0.
+// vC11DownStore reports the metadata store as unreachable (what EtcdStore.Available does
+// after a failed etcd operation): the handler answers several APIs from its
+// "etcd unavailable" branches.
+type vC11DownStore struct{ metadata.Store }
+
+func (vC11DownStore) Available() bool { return false }
+
+// vC11NewBroker also builds the environment variants "loaded+etcd-down" (store reports
+// unavailable), "loaded+acl-deny" (ACL enforcement on, nothing allowed) and
+// "loaded+s3-unavailable" (S3 health monitor rates S3 unavailable): the same requests must
+// still get decodable replies from those branches.
 func vC11NewBroker(kind string) (*handler, *vC11Fx, error) {
+	if strings.HasPrefix(kind, "loaded+") {
+		h, fx, err := vC11NewBroker("loaded")
+		if err != nil {
+			return nil, nil, err
+		}
+		switch strings.TrimPrefix(kind, "loaded+") {
+		case "etcd-down":
+			h.store = vC11DownStore{h.store}
+		case "acl-deny":
+			h.authorizer = acl.NewAuthorizer(acl.Config{Enabled: true, DefaultPolicy: "deny"})
+		case "s3-unavailable":
+			for i := 0; i < 20; i++ {
+				h.s3Health.RecordOperation("upload", 0, fmt.Errorf("verif: s3 down"))
+			}
+		}
+		return h, fx, nil
+	}
 	meta := vMeta(map[string]int{"t": 2})
 	store := metadata.NewInMemoryStore(meta)
 	s3 := fakes3.New(fakes3.NewBucket(), "b1")
@@ -283,6 +313,7 @@ func TestVerifC11(t *testing.T) {
 	rep.SetInfo("broker_fixtures", "loaded (topic t: 2 partitions, one batch in p0; group g stable, one member, committed offset) | bare (topic t without data, no group)")
 
 	cases := vC11Cases("broker", []string{"loaded", "bare"}, []string{"inproc", "wire"}, keys, adv, listed)
+	cases = append(cases, vC11Cases("broker", []string{"loaded+etcd-down", "loaded+acl-deny", "loaded+s3-unavailable"}, []string{"inproc"}, keys, adv, listed)...)
 	var only vC11Case
 	if replaying, err := vh.LoadReplay(&only); replaying {
 		if err != nil {
